@@ -7,6 +7,8 @@
    agree l a b: the input contexts a and b bind the names in l alike. *)
 From Coq Require Import List NArith ZArith Bool Arith.
 From DV Require Import C04.Model C04.Proofs.
+From DV Require C01.Syntax C01.Spec C01.Impl.
+From DV Require Import C04.LinkC01.
 Import ListNotations.
 
 Definition extensional (eval : (N -> env -> value) -> env -> expr -> value) : Prop :=
@@ -104,6 +106,46 @@ Example C04_nonvacuous :
   closure_names G_ex O_ex 6%N = [6; 4; 1; 3; 1; 2; 5; 2; 3; 1; 2]%N.
 Proof. exact nonvacuous. Qed.
 
+(* teval IS the FEEL evaluator model of C01 (C01/Spec.v eval_spec = the scope-stack machine C01/Impl.v run_impl that
+   transliterates feel-evaluator/src/builders.rs) on the fragment both express: null, numbers, strings, names, + *, literal
+   invocation f(a, b) of a knowledge-model function value, boxed context with or without result entry (tr_e, tr_v, tr_env in
+   C04/LinkC01.v; boxed invocation, relation and decision-service function values have no C01 counterpart).
+   shared f sc e = true: the evaluation of e in sc stays inside that fragment within f levels, every sum and product has
+   at most 34 digits (C01 rounds to decimal128), no string + string and no repeated formal argument name (on those two
+   the models differ: C04_teval_feel_corners).  zsign: up to the sign of zero (-3 * 0 is -0 in decimal128, 0 in Z). *)
+Theorem C04_teval_is_feel_eval : forall svc sc e fuel, shared TFUEL sc e = true -> 2 * TFUEL <= fuel ->
+  zsign (C01.Spec.eval_spec fuel (tr_env sc) (tr_e e)) = tr_v (teval svc sc e) /\
+  zsign (fst (C01.Impl.run_impl fuel (tr_env sc) (tr_e e))) = tr_v (teval svc sc e) /\
+  snd (C01.Impl.run_impl fuel (tr_env sc) (tr_e e)) = tr_env sc.
+Proof. exact teval_is_feel_eval. Qed.
+
+(* the same for every fuel f of the tiny evaluator, every enumeration function of C01's eval and every C01 stack that binds
+   the names as the C04 scope does *)
+Theorem C04_tev_is_feel_eval : forall cartf svc f sc S e g, shared f sc e = true -> 2 * f <= g -> srel sc S ->
+  zsign (C01.Spec.eval cartf g S (tr_e e)) = tr_v (fst (tev false f svc sc e)).
+Proof. exact tev_is_feel_eval. Qed.
+
+Example C04_teval_is_feel_eval_nonvacuous :
+  shared TFUEL link_env link_e = true /\
+  teval no_svc link_env link_e = VNum (-24) /\
+  C01.Spec.eval_spec 120 (tr_env link_env) (tr_e link_e) = C01.Syntax.VNum (Base.Dec.of_Z (-24) 0) /\
+  fst (C01.Impl.run_impl 120 (tr_env link_env) (tr_e link_e)) = C01.Syntax.VNum (Base.Dec.of_Z (-24) 0) /\
+  shared TFUEL link_env (ECall 1%N [ENum 5]) = true /\ teval no_svc link_env (ECall 1%N [ENum 5]) = VNull /\
+  shared TFUEL link_env (EAdd (EVar 2%N) ENull) = true /\ teval no_svc link_env (EAdd (EVar 2%N) ENull) = VNull.
+Proof. exact link_nonvacuous. Qed.
+
+(* outside the hypotheses the two models differ; the real code answers as C01 does ("ab", 2, 1E+34) *)
+Theorem C04_teval_feel_corners :
+  (teval no_svc [] (EAdd (EStr 97%N) (EStr 98%N)) = VNull /\
+   C01.Spec.eval_spec 5 (tr_env []) (tr_e (EAdd (EStr 97%N) (EStr 98%N))) = C01.Syntax.VStr [97%N; 98%N]) /\
+  (let sc := [(1%N, VBkm [10%N; 10%N] (EVar 10%N))] in let e := ECall 1%N [ENum 1; ENum 2] in
+   teval no_svc sc e = VNum 1 /\ C01.Spec.eval_spec 5 (tr_env sc) (tr_e e) = C01.Syntax.VNum (Base.Dec.of_Z 2 0)) /\
+  (let e := EAdd (EMul (ENum (10 ^ 17)) (ENum (10 ^ 17))) (ENum 1) in
+   shared TFUEL [] e = false /\ teval no_svc [] e = VNum (10 ^ 34 + 1) /\
+   C01.Spec.eval_spec 5 (tr_env []) (tr_e e) = C01.Syntax.VNum (Base.Dec.mkdec false (10 ^ 33) 1)).
+Proof. exact (conj str_concat_differs (conj dup_params_differ rounding_differs)). Qed.
+
+
 Print Assumptions C04_refines.
 Print Assumptions C04_invoke_refines.
 Print Assumptions C04_fuel_sufficient.
@@ -119,3 +161,7 @@ Print Assumptions C04_irrelevant_inputs_teval.
 Print Assumptions C04_context_leak_orig_refuted.
 Print Assumptions C04_knowledge_service_orig_refuted.
 Print Assumptions C04_nonvacuous.
+Print Assumptions C04_teval_is_feel_eval.
+Print Assumptions C04_tev_is_feel_eval.
+Print Assumptions C04_teval_is_feel_eval_nonvacuous.
+Print Assumptions C04_teval_feel_corners.
